@@ -291,7 +291,7 @@ func (l *Layout) keccakOf(arg ssa.Value, d int) string {
 		if c, isC := arg.(*ssa.Const); isC && c.Value == nil {
 			return "K()"
 		}
-		return "K(LIST(" + l.Sx.Of(arg).String() + "))"
+		return "K(LIST)" // construction of the list is analysed separately ([LIST])
 	}
 	ps := make([]string, len(parts))
 	for i, p := range parts {
@@ -306,15 +306,22 @@ func (l *Layout) call(c *ssa.Call, d int) string {
 	// append(append(make([]byte, 0, n), a...), b...) — concatenation
 	if b, ok := c.Call.Value.(*ssa.Builtin); ok && b.Name() == "append" && isByteSlice(c.Type()) && len(args) == 2 {
 		tail := l.of(args[1], d+1)
-		if m, ok := args[0].(*ssa.MakeSlice); ok {
-			if n, isC := ConstInt(m.Len); isC && n == 0 {
-				return tail
-			}
-		}
-		if isNilByteConst(args[0]) {
+		if l.emptyPrefix(args[0]) {
 			return tail
 		}
 		return l.of(args[0], d+1) + "|" + tail
+	}
+	// binary.BigEndian.AppendUintNN(prefix, v) = prefix ‖ BE(v)
+	if strings.HasPrefix(name, "(encoding/binary.bigEndian).AppendUint") || strings.HasPrefix(name, "(encoding/binary.littleEndian).AppendUint") {
+		kind := map[string]string{"(encoding/binary.bigEndian).AppendUint16": "BE16", "(encoding/binary.bigEndian).AppendUint32": "BE32", "(encoding/binary.bigEndian).AppendUint64": "BE64",
+			"(encoding/binary.littleEndian).AppendUint16": "LE16", "(encoding/binary.littleEndian).AppendUint32": "LE32", "(encoding/binary.littleEndian).AppendUint64": "LE64"}[name]
+		if kind != "" && len(args) == 3 {
+			tail := kind + "(" + l.Sx.Of(args[2]).String() + ")"
+			if l.emptyPrefix(args[1]) {
+				return tail
+			}
+			return l.of(args[1], d+1) + "|" + tail
+		}
 	}
 	switch name {
 	case "github.com/ethereum/go-ethereum/crypto.Keccak256Hash", "github.com/ethereum/go-ethereum/crypto.Keccak256",
@@ -401,6 +408,24 @@ func (l *Layout) hasherSum(sum *ssa.Call, d int) string {
 		ps[i] = x.s
 	}
 	return "K(" + strings.Join(ps, "|") + ")"
+}
+
+// emptyPrefix: nil, make([]byte, 0, n), []byte{}, or buf[:0] of a fresh local array.
+func (l *Layout) emptyPrefix(v ssa.Value) bool {
+	if isNilByteConst(v) {
+		return true
+	}
+	switch x := v.(type) {
+	case *ssa.MakeSlice:
+		n, ok := ConstInt(x.Len)
+		return ok && n == 0
+	case *ssa.Slice:
+		if _, isAlloc := x.X.(*ssa.Alloc); isAlloc && x.High != nil {
+			n, ok := ConstInt(x.High)
+			return ok && n == 0 && x.Low == nil
+		}
+	}
+	return false
 }
 
 func isNilByteConst(v ssa.Value) bool {
